@@ -13,6 +13,7 @@
 package c17
 
 import (
+	"encoding/json"
 	"fmt"
 	"math/rand"
 	"regexp"
@@ -79,16 +80,24 @@ func defTokens(text string) (ids []int64, tokens [][]int64, distinct []bool) {
 }
 
 // buildIR builds the module of a vector through the ir API.
-func buildIR(ids []int64, refs [][]int) (*ir.Module, []*metadata.Tuple) {
+// Definitions without operands at an even position are specialised nodes
+// (DIBasicType), the others tuples: AssignMetadataIDs must treat all kinds alike.
+func buildIR(ids []int64, refs [][]int) (*ir.Module, []metadata.Definition) {
 	m := ir.NewModule()
-	ts := make([]*metadata.Tuple, len(ids))
+	ts := make([]metadata.Definition, len(ids))
 	for i := range ids {
-		ts[i] = &metadata.Tuple{}
+		if len(refs[i]) == 0 && i%2 == 1 {
+			ts[i] = &metadata.DIBasicType{Name: "t"}
+		} else {
+			ts[i] = &metadata.Tuple{}
+		}
 		ts[i].SetID(ids[i])
 	}
 	for i := range ids {
-		for _, j := range refs[i] {
-			ts[i].Fields = append(ts[i].Fields, ts[j-1])
+		if t, ok := ts[i].(*metadata.Tuple); ok {
+			for _, j := range refs[i] {
+				t.Fields = append(t.Fields, ts[j-1])
+			}
 		}
 		m.MetadataDefs = append(m.MetadataDefs, ts[i])
 	}
@@ -193,7 +202,8 @@ type parseRow struct {
 	Obs     observation            `json:"obs"`
 	Printed printed                `json:"printed"`
 	// not part of the judged record
-	text string
+	freeSites bool // the attachment sites of this text are not prescribed: only identity is judged there
+	text      string
 	name string
 	kind map[int64]string
 }
@@ -274,6 +284,9 @@ func Run(tier, replay string) {
 
 	// (S) the laws hold for the ID assignment as written; the wrong variants are rejected
 	maxDefs, maxID := "4", "4"
+	if tier == "thorough" {
+		maxDefs = "5"
+	}
 	t := mbt.MustTLC(mbt.TLCOpts{Spec: "Metadata", Cfg: "Metadata.cfg", Workers: 1, Timeout: 10 * time.Minute,
 		Consts: map[string]string{"Emit": "TRUE", "MaxDefs": maxDefs, "MaxId": maxID}})
 	if len(t.Violated) > 0 {
@@ -293,6 +306,9 @@ func Run(tier, replay string) {
 		tv.Cleanup()
 	}
 	maxN := "3"
+	if tier == "thorough" {
+		maxN = "4"
+	}
 	tg := mbt.MustTLC(mbt.TLCOpts{Spec: "MetadataGraph", Cfg: "MetadataGraph.cfg", Workers: 1, Timeout: 15 * time.Minute,
 		Consts: map[string]string{"Emit": "TRUE", "MaxN": maxN}})
 	if len(tg.Violated) > 0 {
@@ -343,7 +359,7 @@ func Run(tier, replay string) {
 	// (G) parser side: TLC-generated graph patterns
 	rows := make([]*parseRow, 0, len(patterns)+200)
 	for _, p := range patterns {
-		rows = append(rows, &parseRow{Src: "graph", Pat: p.Pat, Want: p.Want, text: render(p.Text), name: fmt.Sprint(p.Pat)})
+		rows = append(rows, &parseRow{Src: "graph", Pat: p.Pat, Want: p.Want, text: render(p.Text), name: patName(p.Pat)})
 	}
 	// the specialised node kinds
 	diRows, diInfo := specialisedRows(tier, rng)
@@ -351,17 +367,25 @@ func Run(tier, replay string) {
 	for k, v := range diInfo {
 		rep.Extra[k] = v
 	}
-	canonEvery := 1
+	// llvm-as validates every text; the llvm-as|llvm-dis comparison of input and printed
+	// output (4 more process spawns) is done for a seeded share of them
+	canonEvery := 2
 	if tier != "thorough" {
 		canonEvery = 6
 	}
 	judged := processParseRows(rep, rows, canonEvery, rng.Intn(canonEvery))
 	rep.Sample(map[string]interface{}{"kind": "graph", "pat": patterns[len(patterns)/3].Pat, "text": render(patterns[len(patterns)/3].Text)})
 
+	negatives(rep)
+
 	// (T) everything recorded is judged by MetadataTrace
 	judge(rep, irRows, vectors, judged)
 	rep.Exhaustive = false
 	rep.Finish()
+}
+
+func patName(p map[string]interface{}) string {
+	return fmt.Sprintf("graph(n=%v shape=%v sparse=%v perm=%v distinct-mode=%v inline-mode=%v named-mode=%v)", p["n"], p["shape"], p["sparse"], p["perm"], p["dm"], p["inl"], p["nv"])
 }
 
 func idsClass(ids []int64) string {
@@ -413,7 +437,7 @@ func processParseRows(rep *mbt.Report, rows []*parseRow, canonEvery, off int) []
 	canonChecked := 0
 	llvmoracle.Parallel(len(rows), func(i int) {
 		r := rows[i]
-		caseOf := map[string]interface{}{"kind": "parse", "src": r.Src, "text": r.text, "want": r.Want, "pat": r.Pat}
+		caseOf := map[string]interface{}{"kind": "parse", "src": r.Src, "name": r.name, "text": r.text, "want": r.Want, "pat": r.Pat}
 		canonIn, ok, diag := "", false, ""
 		doCanon := (i+off)%canonEvery == 0
 		if doCanon {
@@ -436,6 +460,9 @@ func processParseRows(rep *mbt.Report, rows []*parseRow, canonEvery, off int) []
 			return
 		}
 		r.Obs = observe(m, r.Src == "graph")
+		if w, ok := r.Want.(map[string]interface{}); ok && r.freeSites {
+			w["sites"] = r.Obs.Sites
+		}
 		var text string
 		if msg, p := mbt.Guard(func() { text = m.String() }); p {
 			out[i].fail = &mbt.Failure{Signature: "C17|print|panic|" + r.Src + r.kindTag(), What: fmt.Sprintf("%s: printing the parsed module panics: %s", r.name, mbt.Truncate(msg, 300)), Case: caseOf}
@@ -480,6 +507,35 @@ func processParseRows(rep *mbt.Report, rows []*parseRow, canonEvery, off int) []
 		mbt.Infra("%d of %d generated texts are rejected by llvm-as (more than 2%%): the generator is wrong", discards, len(rows))
 	}
 	return judged
+}
+
+// negatives: texts whose metadata IDs are not unique or not defined. LLVM must
+// reject them (otherwise the case is discarded) and so must the parser -- with
+// an error, not with a panic and not by silently picking one definition.
+func negatives(rep *mbt.Report) {
+	cases := []struct{ name, text string }{
+		{"duplicate-id", "!0 = !{}\n!1 = !{!0}\n!0 = !{!1}\n"},
+		{"duplicate-id-distinct", "!named = !{!3}\n!3 = distinct !{}\n!3 = distinct !{}\n"},
+		{"undefined-ref-in-tuple", "!0 = !{!5}\n"},
+		{"undefined-ref-in-named", "!named = !{!7}\n!0 = !{}\n"},
+		{"undefined-ref-in-attachment", "@g = global i32 0, !foo !9\n!0 = !{}\n"},
+		{"undefined-ref-in-specialised", "!0 = !DIFile(filename: \"a\", directory: \"b\")\n!1 = !DIBasicType(name: \"t\")\n!2 = !DIDerivedType(tag: DW_TAG_pointer_type, baseType: !8)\n"},
+	}
+	for _, c := range cases {
+		if ok, _ := llvmoracle.Accepts(c.text); ok {
+			rep.Note("negative case %s is accepted by llvm-as: discarded", c.name)
+			continue
+		}
+		rep.Count("negative:"+c.name, true)
+		var err error
+		msg, p := mbt.Guard(func() { _, err = asm.ParseString("neg.ll", c.text) })
+		caseOf := map[string]interface{}{"kind": "negative", "name": c.name, "text": c.text}
+		if p {
+			rep.Fail(mbt.Failure{Signature: "C17|parse|panic-on-invalid|" + c.name, What: "the parser panics instead of reporting an error: " + mbt.Truncate(msg, 300), Case: caseOf})
+		} else if err == nil {
+			rep.Fail(mbt.Failure{Signature: "C17|parse|accepts-invalid|" + c.name, What: "the parser accepts a text whose metadata IDs are not unique / not defined (llvm-as rejects it)", Case: caseOf})
+		}
+	}
 }
 
 func (r *parseRow) kindTag() string {
@@ -533,9 +589,45 @@ func judge(rep *mbt.Report, irRows []irRow, vectors []irVector, prs []*parseRow)
 		}
 		r := prs[ri-1]
 		rep.Fail(mbt.Failure{Signature: "C17|parse|" + law + "|" + r.Src + r.kindTag(),
-			What: fmt.Sprintf("%s: law %s fails on the parsed module; observed %s printed %v", r.name, law, mbt.Truncate(fmt.Sprintf("%+v", r.Obs), 600), r.Printed.Tokens),
-			Case: map[string]interface{}{"kind": "parse", "src": r.Src, "text": r.text, "want": r.Want, "pat": r.Pat}})
+			What: fmt.Sprintf("%s: law %s fails on the parsed module: %s", r.name, law, explain(r)),
+			Case: map[string]interface{}{"kind": "parse", "src": r.Src, "name": r.name, "text": r.text, "want": r.Want, "pat": r.Pat}})
 	}
+}
+
+// explain names the first place where the observation differs from what is required.
+func explain(r *parseRow) string {
+	var w, o map[string]interface{}
+	wb, _ := json.Marshal(r.Want)
+	ob, _ := json.Marshal(r.Obs)
+	json.Unmarshal(wb, &w)
+	json.Unmarshal(ob, &o)
+	js := func(v interface{}) string { b, _ := json.Marshal(v); return mbt.Truncate(string(b), 300) }
+	wd, _ := w["defs"].([]interface{})
+	od, _ := o["defs"].([]interface{})
+	if len(wd) != len(od) {
+		return fmt.Sprintf("%d definitions required, %d found", len(wd), len(od))
+	}
+	for i := range wd {
+		wm, _ := wd[i].(map[string]interface{})
+		om, _ := od[i].(map[string]interface{})
+		if _, has := wm["kind"]; !has {
+			delete(om, "kind")
+		}
+		if js(wm) != js(om) {
+			return fmt.Sprintf("definition %d: required %s, observed %s", i, js(wm), js(om))
+		}
+	}
+	if js(w["named"]) != js(o["named"]) {
+		return fmt.Sprintf("named metadata: required %s, observed %s", js(w["named"]), js(o["named"]))
+	}
+	if js(w["sites"]) != js(o["sites"]) {
+		return fmt.Sprintf("attachment sites: required %s, observed %s", js(w["sites"]), js(o["sites"]))
+	}
+	var ids []interface{}
+	for _, d := range wd {
+		ids = append(ids, d.(map[string]interface{})["id"])
+	}
+	return fmt.Sprintf("printed definition IDs %v (required %v), printed tokens %v", r.Printed.IDs, ids, r.Printed.Tokens)
 }
 
 func runReplay(rep *mbt.Report, path string) {
@@ -577,11 +669,17 @@ func runReplay(rep *mbt.Report, path string) {
 				rep.Fail(mbt.Failure{Signature: "C17|ir|" + extraClass(extra) + "|" + idsClass(v.IDs), What: extra, Case: c})
 			}
 			irRows = append(irRows, row)
+		case "negative":
+			negatives(rep)
 		case "parse":
 			src, _ := c["src"].(string)
 			text, _ := c["text"].(string)
 			pat, _ := c["pat"].(map[string]interface{})
-			r := &parseRow{Src: src, Pat: pat, Want: c["want"], text: text, name: "replay#"}
+			name, _ := c["name"].(string)
+			if name == "" {
+				name = "replay#"
+			}
+			r := &parseRow{Src: src, Pat: pat, Want: c["want"], text: text, name: name}
 			if src == "text" {
 				r.Want = wantFromText(text)
 			}
